@@ -165,14 +165,10 @@ func (c *ChunkComposer) RunLoop(reader io.Reader, cb OnCompleteMessage) error {
 			}
 		}
 
-		var neededSize uint32
-		if stream.header.MsgLen <= c.peerChunkSize {
-			neededSize = stream.header.MsgLen
-		} else {
-			neededSize = stream.header.MsgLen - stream.msg.Len()
-			if neededSize > c.peerChunkSize {
-				neededSize = c.peerChunkSize
-			}
+		// 注意，message可能已经接收了一部分（比如对端在两个chunk之间修改了chunk size），所以始终按剩余大小计算
+		neededSize := stream.header.MsgLen - stream.msg.Len()
+		if neededSize > c.peerChunkSize {
+			neededSize = c.peerChunkSize
 		}
 
 		if _, err := io.ReadFull(reader, stream.msg.buff.ReserveBytes(int(neededSize))); err != nil {
